@@ -73,6 +73,18 @@ func (s *Sink) Write(p []byte) (int, error) {
 	return len(p), nil
 }
 
+// WriteByte makes the Sink an io.ByteWriter as well (bufio.Writer and
+// bytes.Buffer are): a one-byte Write. Wrap the Sink in Plain to hide it.
+func (s *Sink) WriteByte(c byte) error {
+	_, err := s.Write([]byte{c})
+	return err
+}
+
+// Plain offers nothing but Write.
+type Plain struct{ W io.Writer }
+
+func (p Plain) Write(b []byte) (int, error) { return p.W.Write(b) }
+
 // Delivery describes how a Source hands out its bytes. It is part of a replay
 // file: (Profile, Seed, flags) fully determine the schedule.
 type Delivery struct {
